@@ -7,6 +7,11 @@ MCValidC(s) == s \notin {"bad", "NULL"}
 MCNormN(s) == CASE s = "_X" -> "_x" [] s = "_Y" -> "_y" [] OTHER -> s
 MCValidN(s) == s \notin {"bad", "NULL"}
 NoScript == <<>>
+\* documents for parse_into (CifStore.ParseR); NoDocs switches the action off
+NoDocs == <<>>
+MCDocs == << << [code |-> "a", items |-> << <<"_x", "s1">> >>] >>,                                          \* one block, one item
+             << [code |-> "A", items |-> << <<"_X", "s3">>, <<"_y", "s1">> >>] >>,                           \* other spellings of the same block / item
+             << [code |-> "b", items |-> << <<"_x", "s1">>, <<"_X", "s3">> >>], [code |-> "a", items |-> <<>>] >> >>   \* duplicate inside the document; an empty block
 \* a block with a two-item loop of three packets and one scalar; handles h1 (block), l1 (the loop), l2 (the scalar loop)
 ScriptLoop == << [op |-> "cif_create", cif |-> "c1"],
                  [op |-> "create_block", cif |-> "c1", code |-> "a"],
